@@ -23,6 +23,7 @@ import (
 	"mellium.im/xmpp"
 	"mellium.im/xmpp/component"
 	"mellium.im/xmpp/jid"
+	"mellium.im/xmpp/s2s"
 	"mellium.im/xmpp/stanza"
 	"mellium.im/xmpp/verifharness/internal/ev"
 	"mellium.im/xmpp/verifharness/internal/wire"
@@ -581,6 +582,34 @@ func plainInitiator(s2s bool) transcript {
 	}
 }
 
+// s2s handshake, initiator: the voluntary bidi feature (whose request is
+// flushed by a deferred Close of the token writer) followed by SASL
+func bidiInitiator() transcript {
+	ns := stanza.NSServer
+	return transcript{
+		name: "s2s bidi+sasl/initiator",
+		start: func(ctx context.Context, rw io.ReadWriter, st *steps) (*xmpp.Session, error) {
+			return xmpp.NewSession(ctx, server, client.Domain(), rw, xmpp.Secure|xmpp.S2S, negotiatorFor(false, func() []xmpp.StreamFeature {
+				return []xmpp.StreamFeature{s2s.Bidi(), xmpp.SASL("", "secret", sasl.Plain)}
+			}))
+		},
+		script: func(st *steps, p *wire.Reactive, fresh []byte) []byte {
+			h := hdr(false, ns, server.String(), client.Domain().String(), "b1")
+			switch {
+			case isHeader(fresh, false):
+				st.n++
+				if st.n == 1 {
+					return []byte(h + features(false, `<bidi xmlns="urn:xmpp:features:bidi"/><mechanisms xmlns="`+saslNS+`"><mechanism>PLAIN</mechanism></mechanisms>`))
+				}
+				return []byte(h + features(false, ""))
+			case bytes.Contains(fresh, []byte("<auth")):
+				return []byte(`<success xmlns="` + saslNS + `"/>`)
+			}
+			return nil
+		},
+	}
+}
+
 func componentInitiator() transcript {
 	secret := []byte("s3cr3t")
 	return transcript{
@@ -618,6 +647,7 @@ func transcripts() []transcript {
 		componentInitiator(),
 		fullInitiator(false, true, false, false),
 		fullReceiver(false, true, false),
+		bidiInitiator(),
 		viaWrapper(plainInitiator(false)),
 		viaWrapper(plainInitiator(true)),
 		viaWrapper(fullInitiator(false, false, false, false)),
@@ -818,9 +848,14 @@ func runWith(tr transcript, f fault, plainRW bool) result {
 	case <-time.After(watchdog):
 		buf := make([]byte, 1<<18)
 		res.dump = string(buf[:runtime.Stack(buf, true)])
-		// unblock and let the goroutine finish
+		// unblock and let the goroutine finish (a call that is parked on a lock
+		// inside the library does not come back when the connection is closed:
+		// it is left behind)
 		peer.Conn.Close()
-		<-done
+		select {
+		case <-done:
+		case <-time.After(2 * time.Second):
+		}
 	}
 	res.elapsed = time.Since(t0)
 	res.ops = ops
